@@ -132,7 +132,7 @@ def run(tier, seed):
     laws_future = pool.submit(check_laws, size)
 
     # quick: one TLC process generates all parts of the case space; thorough: one process per part
-    parts = [0] if tier != "thorough" else [1, 2, 3, 4, 5, 6]
+    parts = [0] if tier != "thorough" else [1, 2, 3, 4, 5, 6, 7]
     with ThreadPoolExecutor(len(parts)) as ex:
         gens = list(ex.map(lambda p: b3.gen_cases("JoinGen", dict(size["gen"], Part=p), timeout=6000, seed=seed), parts))
     seen, cases = set(), []
